@@ -247,12 +247,29 @@ func (d *drv) sizes(t int, sample int, rnd *rand.Rand) int {
 		d.realNames(n, rnd)
 		d.log.Reset(t, jc{"exact": false, "os": [][]int{{0, 0}}})
 		asc := seq(n)
-		d.gen(m, asc)
 		sh := append([]int{}, asc...)
 		rnd.Shuffle(n, func(i, j int) { sh[i], sh[j] = sh[j], sh[i] })
-		d.gen(m, append(sh, sh[0]))
+		d.guard(func() {
+			d.gen(m, asc)
+			d.gen(m, append(sh, sh[0]))
+		})
 	}
 	return t
+}
+
+// guard runs one trace; a panic of the real code ends the trace with a "panic" event, which the trace
+// specification never accepts
+func (d *drv) guard(f func()) {
+	defer func() {
+		if r := recover(); r != nil {
+			msg := fmt.Sprint(r)
+			if len(msg) > 120 {
+				msg = msg[:120]
+			}
+			d.log.Emit("panic", jc{"what": msg})
+		}
+	}()
+	f()
 }
 
 func main() {
@@ -272,11 +289,11 @@ func main() {
 	t := 0
 	for _, b := range behs {
 		t++
-		d.replay(t, b)
+		d.guard(func() { d.replay(t, b) })
 	}
 	for i := 0; i < env.N; i++ {
 		t++
-		d.random(t, rand.New(rand.NewSource(env.Seed*1000003+int64(i))))
+		d.guard(func() { d.random(t, rand.New(rand.NewSource(env.Seed*1000003+int64(i)))) })
 	}
 	if s := os.Getenv("VERIF_MAGLEV_SIZES"); s != "" {
 		k, _ := strconv.Atoi(s)
